@@ -207,9 +207,9 @@ var alphabet = []string{
 
 func TestExhaustive(t *testing.T) {
 	r := vf.Start(t, prop, "exhaustive")
-	L := 3
+	L := 4
 	if vf.Tier() == "thorough" {
-		L = 4
+		L = 5
 	}
 	if v := os.Getenv("VERIF_L"); v != "" {
 		fmt.Sscanf(v, "%d", &L)
@@ -453,4 +453,21 @@ func FuzzParse(f *testing.F) {
 			t.Fatalf("C11 fuzz: [%s] %s", rest[0].Key, rest[0].Detail)
 		}
 	})
+}
+
+// TestFuzzInput pushes crashers found by FuzzParse through the normal verdict path.
+func TestFuzzInput(t *testing.T) {
+	r := vf.Start(t, prop, "fuzz")
+	for _, p := range vf.FuzzInputs() {
+		vals, err := vf.ReadFuzzInput(p)
+		if err != nil || len(vals) != 1 {
+			r.Note("unreadable fuzz input %s: %v", p, err)
+			continue
+		}
+		text := vals[0].(string)
+		c := textCase{text}
+		r.Eval(true, vf.Hash(text), "fuzz-crasher")
+		r.Journal(c)
+		r.JudgeNoFatal(c, checkParse(text))
+	}
 }
